@@ -82,6 +82,7 @@ def subtree(n, seen=None):
 class World:
     def __init__(self):
         self.slots = [None] * NSLOTS
+        self.tools = {}   # one visitor / transformer object per kind for the whole history: a program keeps and re-uses them
 
     def reachable(self):
         seen = set()
@@ -125,10 +126,10 @@ def make_visitor(kind):
     elif kind == "remove-a":
         ns["visit_LL"] = lambda self, node: None if node.v == "a" else node
     elif kind == "raise-b":
-        def r(self, node):
+        def r(self, node):   # rewrites the 'a' leaves it meets before it fails at a 'b' leaf
             if node.v == "b":
                 raise RuntimeError("visitor failure")
-            return node
+            return node.replace(v="b")
         ns["visit_LL"] = r
     return type("LV", (ASTTransformVisitor,), ns)()
 
@@ -140,8 +141,10 @@ def make_transformer(kind):
                 return node.replace(v="b" if node.v == "a" else "a")
             if kind == "remove-a" and node.v == "a":
                 return None
-            if kind == "raise-b" and node.v == "b":
-                raise RuntimeError("transformer failure")
+            if kind == "raise-b":
+                if node.v == "b":
+                    raise RuntimeError("transformer failure")
+                return node.replace(v="b")
         return node
 
     return type("LT", (ASTTransformer,), {"transform": tr})()
@@ -179,6 +182,9 @@ class Model:
                     for c in roots:
                         if len({a, b, c}) == 3:
                             ops.append(("mk3", a, b, c))
+                            # three elements in ONE sequence (tuple / list): removing the first shifts two later siblings
+                            ops.append(("mktup3", a, b, c))
+                            ops.append(("mklst3", a, b, c))
             for r in R:
                 n = nodes[r]
                 if isinstance(n, LL):
@@ -235,6 +241,10 @@ class Model:
             return self.inner(lst=[nodes[op[1]], nodes[op[2]]], origin=NO_ORIGIN)
         if k == "mkreq":
             return LR(req=nodes[op[1]], origin=NO_ORIGIN)
+        if k == "mktup3":
+            return self.inner(tup=(nodes[op[1]], nodes[op[2]], nodes[op[3]]), origin=NO_ORIGIN)
+        if k == "mklst3":
+            return self.inner(lst=[nodes[op[1]], nodes[op[2]], nodes[op[3]]], origin=NO_ORIGIN)
         if k == "mk3":
             return self.inner(opt=nodes[op[1]], tup=(nodes[op[2]],), lst=[nodes[op[3]]], origin=NO_ORIGIN)
         if k == "dup":
@@ -263,10 +273,11 @@ class Model:
         if k == "rep_forbidden":
             return n.replace(id="forced")
         if k == "visit":
-            v = Ident() if op[2] == "identity" else make_visitor(op[2])
+            v = w.tools.get(("visit", op[2])) or w.tools.setdefault(("visit", op[2]), Ident() if op[2] == "identity" else make_visitor(op[2]))
             return v.transform(n)
         if k == "execute":
-            return make_transformer(op[2]).execute(n)
+            t = w.tools.get(("execute", op[2])) or w.tools.setdefault(("execute", op[2]), make_transformer(op[2]))
+            return t.execute(n)
         if k == "readonly":
             readonly_battery(n)
             return None
@@ -346,6 +357,31 @@ class Model:
                     sig = f"C19|{op_family(op)}|{errname}|{pre['ids']}|" + "+".join(groups)
                     rec.violation(sig, case, f"rejected {op[0]} ({errname}) changed pre-existing nodes: " + "; ".join(f"node#{i} {what}" for i, what in diff[:6]),
                                   instance=_inst(self.universe, hist, op, sig, sorted(diff)))
+                else:
+                    # the same call once more, with the same visitor / transformer object: a rejected call leaves nothing behind,
+                    # so the repetition is rejected for the same reason and changes nothing either
+                    st2, err2 = "ok", None
+                    try:
+                        self.perform(w, op, nodes)
+                    except DOCUMENTED as e:
+                        st2, err2 = "rejected", type(e).__name__ + ("<-" + type(e.__cause__).__name__ if e.__cause__ is not None else "")
+                        e.__traceback__ = None
+                        del e
+                    except Exception as e:  # noqa: BLE001
+                        st2, err2 = "undocumented", type(e).__name__
+                        e.__traceback__ = None
+                        del e
+                    after2 = snapshot(nodes)
+                    diff2 = snap_diff(snap, after2, nodes)
+                    if diff2 and st2 == "rejected":
+                        gc.collect()
+                        diff2 = snap_diff(snap, snapshot(nodes), nodes)
+                    if st2 != "rejected" or err2 != errname or diff2:
+                        sig = f"C19|{op_family(op)}|{errname}|{pre['ids']}|on-repeat"
+                        what2 = (f"was {st2}{' (' + err2 + ')' if err2 else ''}" if (st2 != "rejected" or err2 != errname) else
+                                 "changed pre-existing nodes: " + "; ".join(f"node#{i} {x}" for i, x in diff2[:6]))
+                        rec.violation(sig, case, f"rejected {op[0]} ({errname}) changed nothing, but the same call repeated {what2}",
+                                      instance=_inst(self.universe, hist, op, sig, sorted(diff2) if diff2 else st2))
             return "prune"  # a rejected operation changes nothing: no new state
         # successful operation
         if two_positions(w):
